@@ -7,6 +7,7 @@ violation is *recorded* (never raised into the code under test) so that results 
 the act of observing them.
 """
 import collections
+import copy
 import functools
 import os
 import sys
@@ -147,20 +148,33 @@ def attach_method(cls, name, make_wrapper):
     return 1
 
 
+def _snap_options(x):
+    """Deep copy of option containers (dicts / lists / tuples of them): what the caller passed, not what the callee left."""
+    if isinstance(x, (dict, list)):
+        try:
+            return copy.deepcopy(x)
+        except Exception:
+            return x
+    return x
+
+
 def post_monitor(name, cond):
     """Build a wrapper factory: after ``orig(*a, **k)`` returns, call ``cond(result, *a, **k)``.
 
-    ``cond`` records violations itself; exceptions inside the monitor are recorded as monitor
-    errors (never propagated into the code under test).  If the original raises, ``cond`` is not
-    evaluated and the exception propagates unchanged.
+    Option containers among the arguments (dicts, lists) are snapshotted BEFORE the call and the monitor sees the
+    snapshot, so a callee that pops or rewrites an option cannot make the reference model follow it.  ``cond``
+    records violations itself; exceptions inside the monitor are recorded as monitor errors (never propagated into
+    the code under test).  If the original raises, ``cond`` is not evaluated and the exception propagates unchanged.
     """
     def make(orig):
         @functools.wraps(orig)
         def wrapper(*a, **k):
+            a2 = tuple(_snap_options(x) for x in a)
+            k2 = {kk: _snap_options(v) for kk, v in k.items()}
             result = orig(*a, **k)
             count('eval:' + name)
             try:
-                cond(result, *a, **k)
+                cond(result, *a2, **k2)
             except Exception:      # a bug in the monitor must not masquerade as a verdict
                 count('monitor_error:' + name)
                 if COUNTS['monitor_error:' + name] <= 3:
